@@ -27,8 +27,11 @@ LEVEL_TEXT = ("Machine-checked proof that in the model of the authority the acti
               "against the real client on every run.")
 LEVEL_NOTE = ("Transport-creation faults are modelled (Auth.nobuild / event env; an existing shared channel is reused without building): "
               "fallback skips an unbuildable server, channels_are_prefix_up_to_active holds for fault-free histories, "
-              "no_channel_below_active and the revert theorem for all. The harness client has a second authority `b` sharing the "
-              "channels. Full statement since /repo 98104fb (handleADSStreamFailure now requires the failing server to be the active one); before "
+              "no_channel_below_active and the revert theorem for all. The harness client has a second authority `b` whose server list starts at a configurable index of the "
+              "top-level list: with different lists a fallback server of one authority is the primary of the other and its channel "
+              "survives the release, so the revert's unsubscribe is observable (monitor: every live server is asked for exactly the "
+              "resources subscribed on it; theorem revert_on_higher_priority_update_releases_lower gives `unsub i k` for every lower "
+              "server, C43.chanUnsub_forgets that an open channel then forgets the resource). Full statement since /repo 98104fb (handleADSStreamFailure now requires the failing server to be the active one); before "
               "it the first theorem was _partial with a counterexample theorem, findings F40 (non-active failure) and F41 (stale report "
               "of a released channel), both now `fixed` in known_findings/C44.jsonl; reverting that commit makes this check report the "
               "violation again with a failing input. Observations that are NOT clauses of C44 (kept in the notes, reproduced on the real "
@@ -40,7 +43,9 @@ LEVEL_NOTE = ("Transport-creation faults are modelled (Auth.nobuild / event env;
 GAP = ("the order in which same-instant reports of different channels reach the authority (fixed by the harness pacing: lowest server "
        "first); multi-authority sharing of channels; real transports")
 ASSUMPTIONS = ["backoff constant 1 s, watch expiry 2505 ms (harness configuration)"]
-RULE = ("half directed skeletons (a transport that cannot be created (op nobuild) leaves a gap in the fallback chain and then a higher-"
+RULE = ("authority b's server list starts at a random index of the top-level list (cfg 5th field), so fallback servers of the top-level "
+        "authority are shared with an authority that has a DIFFERENT list and stays on them (family shared_fallback: fall back onto b's "
+        "server, higher-priority server returns; seeded change C44-seed28); half directed skeletons (a transport that cannot be created (op nobuild) leaves a gap in the fallback chain and then a higher-"
         "priority server returns — seeded change C44-seed11 / primary down at start / stream break before or after the first response / everything cached / two "
         "updates queued behind a busy serializer / a failure report queued behind the update that releases its channel / watch during "
         "fallback then revert) with a random tail, half random histories as for C43; 1-3 servers. Non-trivial: the active server takes "
@@ -101,13 +106,45 @@ def directed(rng, n):
     return ops
 
 
+def shared_fallback(rng, n, boff):
+    """The top-level authority falls back onto a server that authority b (whose list starts there) is using,
+    then a higher-priority server returns: revert must unsubscribe on the channel that stays open for b."""
+    ops = []
+    if rng.random() < 0.8:
+        ops += ["watch T b_r1 9"]
+        if rng.random() < 0.5:
+            ops += ["respond %d T v0 b_r1:ok:c1" % boff]
+    for i in range(boff):
+        ops += ["down %d" % i]
+    ops += ["watch T r1 1"]
+    if rng.random() < 0.5:
+        ops += ["watch %s r2 2" % rng.choice("TU")]
+    if rng.random() < 0.3:
+        ops += ["watch T b_r2 8"]
+    if rng.random() < 0.5:
+        ops += ["respond %d T v1 r1:ok:c1,b_r1:ok:c2" % boff]
+    back = rng.randrange(boff)
+    ops += ["up %d" % back, "sleep 1000", "respond %d T v2 r1:ok:c2" % back]
+    if rng.random() < 0.5:
+        ops += ["respond %d T v3 b_r1:ok:c3,r1:ok:c3" % boff, "unwatch 1"]
+    return ops
+
+
 def gen(rng, tier):
     n, ln = {"quick": (250, 35), "thorough": (12000, 60), "search": (3000, 45)}[tier]
     for i in range(n):
         ns = rng.choice([1, 2, 2, 2, 3, 3])
         ign = "".join(rng.choice("001") for _ in range(ns))
-        ops = ["cfg %d %s c44" % (ns, ign)]
-        if rng.random() < 0.5:
+        # authority b is configured with the top-level servers from index boff on (0: identical lists); with boff > 0
+        # a fallback server of the top-level authority is the primary of b, i.e. its channel is shared across
+        # authorities with DIFFERENT server lists and survives the top-level authority's release
+        boff = rng.randrange(ns) if rng.random() < 0.5 else 0
+        ops = ["cfg %d %s c44 %d" % (ns, ign, boff)]
+        if boff > 0 and rng.random() < 0.5:
+            ops += shared_fallback(rng, ns, boff)
+            tail = _c43.gen_ops(rng, rng.randrange(0, ln // 2), ns, allow_hold=rng.random() < 0.3)
+            ops += [t for t in tail if not t.startswith("watch") and not t.startswith("unwatch")]
+        elif rng.random() < 0.5:
             ops += directed(rng, ns)
             # re-number watcher ids of the random tail so they do not collide with the skeleton's
             tail = _c43.gen_ops(rng, rng.randrange(0, ln // 2), ns, allow_hold=rng.random() < 0.4)
